@@ -75,7 +75,7 @@ def precision_recs_module(recs, name="PrecisionRecs"):
     return "\n".join(out) + "\n"
 
 
-def apalache_records(ck, recs, cinit, timeout=1500):
+def apalache_records(ck, recs, cinit, timeout=3600):
     """Validate records with Apalache. Returns (ok, index_of_rejected_record or None)."""
     import glob, os
     text = precision_recs_module(recs)
